@@ -225,6 +225,9 @@ func (t *Trimmer) markServiceExtends(svc *parser.Service) {
 
 func (t *Trimmer) cleanServiceExtends() {
 	for _, svc := range t.extServices {
+		if _, ok := t.extNeeded[svc]; ok {
+			continue
+		}
 		svc.Reference = nil
 		svc.Extends = ""
 	}
@@ -309,6 +312,9 @@ func (t *Trimmer) traceExtendMethod(fathers []*parser.Service, svc *parser.Servi
 		back := t.traceExtendMethod(append(fathers, nextSvc), nextSvc, nextAst, filename)
 		if !back {
 			t.markServiceExtends(svc)
+		} else {
+			// reached from another service, the same base may turn out to be unused: keep it then
+			t.extNeeded[svc] = struct{}{}
 		}
 		ret = back || ret
 	}
